@@ -178,4 +178,8 @@ def restoreSnap (now : Int) (im : SnapImage) : Restored × Int :=
       | none => (.panic, ls)
       | some s => (.ok s, ls)
 
+/-- the ticker's test (internal/snapshot/snapshot.go:148): a snapshot is started at a tick iff the change
+    counter *equals* the threshold at that instant -/
+def autoFires (count threshold : Nat) : Bool := count == threshold
+
 end Sugar.Persist
